@@ -1,7 +1,9 @@
 """C17 — glob and nmap range notations denote exactly their address sets.
 
-Ops: valid_glob S ; glob_conv S ; range2globs A A ; cidr2glob N ; nmap fuel S netres addrres ;
-     nmap_multi fuel [S,...]   (+ platform op pyint)
+Ops: valid_glob S ; glob_conv S ; range2globs A A ; cidr2glob N ; nmap fuel S ; nmap_plan fuel S ;
+     nmap_multi fuel [S,...] ; nmap_islice fuel [S,...]   (+ platform op pyint)
+The nmap ops run the model with the real foreign parsers (Nmap.realForeign = the C03 / C01 models of
+IPNetwork(spec) / IPAddress(spec)); nothing of the real code's results is passed to the driver.
 
 The oracle never calls netaddr: glob strings are re-read with its own regex grammar, expected
 addresses are computed from the integers the generator started from, CIDR lists by its own greedy
@@ -29,7 +31,9 @@ RULE = ('glob strings: valid globs of every shape L*H?S* with boundary octets, e
         'one at either end, octet-boundary values, random) + IPv6 pairs (rejected). cidr2glob: every IPv4 prefix x structured values '
         '(host bits kept) + IPv6 (rejected). nmap: four comma/hyphen octet lists with open ends, overlaps, duplicates, reversed and '
         'overflowing ranges, sloppy numerals, wrong octet counts, a.b.c.d/p with every p in 0..33 and sloppy prefixes, IPv6 '
-        'addresses, edit-distance-1 neighbours; enumerations truncated at %d. non-trivial = distinct case whose implementation '
+        'addresses, edit-distance-1 neighbours; enumerations truncated at %d; iter_nmap_range(*specs) with 0-4 arguments of every form '
+        '(octet lists, CIDRs, IPv6, malformed) under per-spec and whole-call (islice) budgets placed at, just before and just after every '
+        'spec boundary. non-trivial = distinct case whose implementation '
         'output is not an error') % (ALPHA, FUEL)
 
 
@@ -363,30 +367,42 @@ def nmap_spec(rng):
     return ''.join(rng.choice(ALPHA + ':') for _ in range(rng.randrange(0, 10)))
 
 
-def _netres(spec):
-    if '/' not in spec:
-        return '-'
-    try:
-        n = IPNetwork(spec)
-        return 'N:%d:%d:%d' % (n.version, n.value, n.prefixlen)
-    except Exception as e:
-        return '!' + errname(e).replace(' ', '_')
-
-
-def _addrres(spec):
-    if '/' in spec or ':' not in spec:
-        return '-'
-    try:
-        a = IPAddress(spec)
-        return 'A:%d:%d' % (a.version, a.value)
-    except Exception as e:
-        return '!' + errname(e).replace(' ', '_')
-
-
-def nmap_cases(s):
-    n, a = _netres(s), _addrres(s)
+def nmap_cases(s, plan=False):
     tag = 'nmap/cidr' if '/' in s else ('nmap/v6' if ':' in s else 'nmap/octets')
-    return [Case('nmap %d %s %s %s' % (FUEL, hexs(s), n, a), tag, ('nmap', s))]
+    out = [Case('nmap %d %s' % (FUEL, hexs(s)), tag, ('nmap', s))]
+    if plan:
+        out.append(Case('nmap_plan %d %s' % (FUEL, hexs(s)), 'nmap/plan', ('nplan', s)))
+    return out
+
+
+def multi_spec(rng):
+    """one argument of iter_nmap_range(*specs) whose enumeration has at most FUEL items (or fails)"""
+    r = rng.random()
+    if r < 0.6:
+        return '%d.%d.' % (_oct(rng), _oct(rng)) + '.'.join(nmap_octet(rng) for _ in range(rng.choice([2, 2, 2, 2, 1])))
+    if r < 0.8:
+        v = rand32(rng)
+        dq = '.'.join(str((v >> s) & 255) for s in (24, 16, 8, 0))
+        return dq + '/' + str(rng.choice([20, 24, 27, 28, 29, 30, 30, 31, 32, 32, 0, 33, 19 + rng.randrange(14)]))
+    if r < 0.9:
+        return rng.choice(['::1', '::', 'fe80::1', '::ffff:1.2.3.4', '1:2:3:4:5:6:7:8', '%x::%x' % (rng.getrandbits(16), rng.getrandbits(16)),
+                           '1:2:3:4:5:6:7:8:9', 'g::', '::1/128', 'fe80::/24'])
+    return rng.choice(['', '1.2.3', '1.2.3.4.5', '1.2.3.256', '1.2.3.4-3', 'x/y', '1.2.3.4/x', '1.2.3.4//24', '10.0.0.1', '9.9.9.9'])
+
+
+def multi_total(ss):
+    """number of items of the whole call when every spec is fine and small; None otherwise"""
+    n = 0
+    for x in ss:
+        e = _nmap_expect(x, FUEL + 1)
+        if e is None:
+            return None
+        if e[0] != 'ok':
+            break
+        if len(e[1]) > FUEL:
+            return None
+        n += len(e[1])
+    return n
 
 
 def corpus():
@@ -400,8 +416,27 @@ def corpus():
     out += [r2g_case(0, M32, 'corpus'), r2g_case(5, 1000, 'corpus'), r2g_case(0x0a000001, 0x0a0000fe, 'corpus'),
             r2g_case(256, 767, 'corpus'), r2g_case(255, 256, 'corpus'), r2g_case(M32, M32, 'corpus')]
     for s in ['192.0.2.0-3', '10.0.0-1.1,3-5', '-.-.-.-', '1.2.3.4,4,4-5,5', '10.0.0.0/30', '10.0.0.5/30', '10.0.0.0/0',
-              '10.0.0.0/33', '::1', '::1/128', '1.2.3', '', '1.2.3.3-2', '1.2.3.-', '1.2.3.250-', '1.2.3.-3', '10.0.0.0/1']:
-        out += nmap_cases(s)
+              '10.0.0.0/33', '::1', '::1/128', '1.2.3', '', '1.2.3.3-2', '1.2.3.-', '1.2.3.250-', '1.2.3.-3', '10.0.0.0/1',
+              # int() leniencies of the octet grammar (NmapGrammar productions), sloppy CIDR spellings, the
+              # inet_aton tail of the ':' branch, IPv6 CIDRs, second slash, garbage
+              '1.2.3.0--0', '1.2.3.--0', '1.2.3.0- -0_0', '1.2.3. +0_7 ', '1.2.3.007', '1.2.3.1--0', '1.2.3.-0', '1.2.3.4,',
+              '1.2.3.,4', '1.2.3.1-2-3', '1.2.3.\t5\n', '1.2.3.5 - 6', '1.2.3.+5-+6', '1.2.3.1__0', '1.2.3._1', '1.2.3.1_',
+              '10/8', '10.0.0.1/ 8', '010.0.0.1/8', '1.2.3.4 /8', '1.2.3.4/+8', '1.2.3.4/0_8', '1.2.3.4/255.255.255.0',
+              '1.2.3.4/8/9', '1.2.3.4//8', '/', '/8', 'x/y', '::/8', '::1/x', 'fe80::/10', '::ffff:1.2.3.4/24', '1.2.3.4/-0',
+              '1.2.3.4 :', '1.2.3.4 ::1', '1 :', '0x7f.1 :x', '::ffff:1.2.3.4', '1.2.3.4:', ': 1.2.3.4']:
+        out += nmap_cases(s, plan=True)
+    for ss in [('10.0.0.0/30', '::1', '1.2.3.4-5'), ('1.2.3.4', '1.2.3', '9.9.9.9'), ('1.2.3.4', 'x/y'), ('::1', '10.0.0.0/33', '1.1.1.1'),
+               (), ('',), ('1.2.3.4', '1.2.3.4'), ('1.2.3.4,4', '1.2.3.4 :')]:
+        out += multi_cases(ss, [FUEL, 0, 1, 2, 4, 5, 6])
+    return out
+
+
+def multi_cases(ss, fuels):
+    out = []
+    if multi_total(ss) is not None:
+        out.append(Case('nmap_multi %d %s' % (FUEL, plist(hexs(s) for s in ss)), 'nmap/multi', ('nmulti', ss)))
+    for f in fuels:
+        out.append(Case('nmap_islice %d %s' % (f, plist(hexs(s) for s in ss)), 'nmap/islice', ('nislice', f, ss)))
     return out
 
 
@@ -456,7 +491,7 @@ def generate(rng, tier):
         if s in nseen or not s.isascii():
             return
         nseen.add(s)
-        cases.extend(nmap_cases(s))
+        cases.extend(nmap_cases(s, plan=len(nseen) % 4 == 0))
 
     nbase = [nmap_spec(rng) for _ in range(2500 * mult)]
     for s in nbase:
@@ -469,11 +504,16 @@ def generate(rng, tier):
         for e in all_edits(s):
             add_nmap(e)
     for _ in range(300 * mult):
-        ss = tuple('%d.%d.' % (_oct(rng), _oct(rng)) + '.'.join(nmap_octet(rng) for _ in range(rng.choice([2, 2, 2, 2, 1])))
-                   for _ in range(rng.randrange(0, 4)))
-        if any(len((ref_nmap(s, FUEL + 1) + ([],))[2]) > FUEL for s in ss):
-            continue
-        cases.append(Case('nmap_multi %d %s' % (FUEL, plist(hexs(s) for s in ss)), 'nmap/multi', ('nmulti', ss)))
+        ss = tuple(multi_spec(rng) for _ in range(rng.randrange(0, 5)))
+        tot = multi_total(ss)
+        fuels = [rng.choice([0, 1, 2, 3, 7, 64, FUEL])]
+        if tot is not None:
+            # budgets around the end of each spec's items: the call stops exactly at / just before / just after a boundary
+            fuels += [max(0, tot + rng.choice([-1, 0, 1]))]
+            e0 = _nmap_expect(ss[0], FUEL + 1) if ss else None
+            if e0 and e0[0] == 'ok':
+                fuels.append(max(0, len(e0[1]) + rng.choice([-1, 0, 0, 1])))
+        cases.extend(multi_cases(ss, fuels))
 
     cases += platform_cases.pyint_cases(rng, 300 * mult)
     return cases
@@ -486,6 +526,18 @@ def _try(f):
         return f()
     except Exception:
         return '!'
+
+
+def _tryc(f):
+    """like _try, with the class of the exception (the nmap ops compare it)"""
+    try:
+        return f()
+    except Exception as e:
+        return '!' + errname(e).replace(' ', '_')
+
+
+def _show(x):
+    return str(int(x)) if x.version == 4 else '%d:%d' % (x.version, int(x))
 
 
 _NONSTR = {'none': None, 'int': 5, 'bytes': b'1.2.3.4', 'list': ['1.2.3.4']}
@@ -562,19 +614,20 @@ def impl(c):
         return _try(lambda: hexs(cidr_to_glob(common.make_net(ver, v, p))))
     if k == 'nmap':
         def it():
-            out = []
-            for x in itertools.islice(common.paired(lambda: iter_nmap_range(a[1])), FUEL):
-                out.append(str(int(x)) if x.version == 4 else '%d:%d' % (x.version, int(x)))
-            return plist(out)
-        return _try(lambda: tf(valid_nmap_range(a[1]))) + ' ' + _try(it)
-    if k == 'nmulti':
+            return plist(_show(x) for x in itertools.islice(common.paired(lambda: iter_nmap_range(a[1])), FUEL))
+        return _tryc(lambda: tf(valid_nmap_range(a[1]))) + ' ' + _tryc(it)
+    if k == 'nplan':
+        return _tryc(lambda: plist(_show(x) for x in itertools.islice(iter_nmap_range(a[1]), FUEL)))
+    if k in ('nmulti', 'nislice'):
+        specs = a[1] if k == 'nmulti' else a[2]
+        budget = FUEL * max(1, len(specs)) if k == 'nmulti' else a[1]
         out = []
         try:
-            for x in itertools.islice(common.paired(lambda: iter_nmap_range(*a[1])), FUEL * max(1, len(a[1]))):
-                out.append(str(int(x)) if x.version == 4 else '%d:%d' % (x.version, int(x)))
+            for x in itertools.islice(common.paired(lambda: iter_nmap_range(*specs)), budget):
+                out.append(_show(x))
             return plist(out)
-        except Exception:
-            return plist(out) + '!'
+        except Exception as e:
+            return plist(out) + '!' + errname(e).replace(' ', '_')
     raise ValueError(a)
 
 
@@ -659,23 +712,34 @@ def oracle(c, got):
         return None if sp == exp else 'cidr_to_glob gave %r = %s, the block is %s' % (unhexs(got), sp, exp)
     if k == 'nmap':
         return _nmap_oracle(a[1], got)
-    if k == 'nmulti':
+    if k == 'nplan':
+        return None                      # judged through the 'nmap' case of the same spec
+    if k in ('nmulti', 'nislice'):
+        specs = a[1] if k == 'nmulti' else a[2]
+        budget = None if k == 'nmulti' else a[1]
+        # concatenation in argument order; the first bad spec raises where its items would start; one budget
         exp = []
         failed = False
-        for s in a[1]:
-            r = ref_nmap(s, FUEL * max(1, len(a[1])))
-            if r[0] != 'ok':
-                if not r[1]:
-                    return None          # sloppy numerals: acceptance not judged
+        for s in specs:
+            if budget is not None and len(exp) >= budget:
+                break                    # the consumer stopped asking: later specs are never looked at
+            e = _nmap_expect(s, FUEL + 1 if budget is None else budget - len(exp))
+            if e is None:
+                return None              # sloppy numerals / address spellings: acceptance not judged here
+            if e[0] != 'ok':
                 failed = True
                 break
-            exp += [str(v) for v in r[2]]
-        exp = plist(exp[:FUEL * max(1, len(a[1]))]) + ('!' if failed else '')
-        return None if got == exp else 'iter_nmap_range(*specs) gave %s, expected %s' % (got[:100], exp[:100])
+            exp += e[1]
+        if budget is not None:
+            exp = exp[:budget]
+        lst, _, err = got.partition('!')
+        if (lst, bool(err) or got.endswith('!')) != (plist(exp), failed):
+            return 'iter_nmap_range(*specs) gave %s, expected %s%s' % (got[:100], plist(exp)[:100], '!' if failed else '')
+        return None
     return None
 
 
-def _nmap_expect(spec):
+def _nmap_expect(spec, fuel=FUEL):
     """('ok', list-of-str) / ('bad',) / ('ok?',) one address, unknown / None = acceptance left open"""
     if '/' in spec:
         m = re.match(r'^((?:0|[1-9][0-9]{0,2})(?:\.(?:0|[1-9][0-9]{0,2})){3})/(0|[1-9][0-9]*)\Z', spec, re.A)
@@ -689,14 +753,14 @@ def _nmap_expect(spec):
                 return ('bad',)
             size = 1 << (32 - p)
             first = ip - ip % size
-            return ('ok', [str(first + i) for i in range(min(size, FUEL))])
+            return ('ok', [str(first + i) for i in range(min(size, fuel))])
         return None
     if ':' in spec:
         try:
             return ('ok', ['6:%d' % int(ipaddress.IPv6Address(spec))])
         except ValueError:
             return None
-    r = ref_nmap(spec)
+    r = ref_nmap(spec, fuel)
     if r[0] == 'ok':
         return ('ok', [str(v) for v in r[2]])
     return ('bad',) if r[1] else None
@@ -711,6 +775,10 @@ def _nmap_oracle(spec, got):
     # valid <=> iteration succeeds, on every spec
     if valid not in ('T', 'F'):
         return 'valid_nmap_range raised'
+    if got.startswith('!'):
+        if got not in ('!value', '!addrFormat'):
+            return 'iteration raised %s (nmap.py raises ValueError / AddrFormatError only)' % got[1:]
+        got = '!'
     if (valid == 'T') != (got != '!'):
         return 'valid_nmap_range = %s but iteration %s' % (valid, 'succeeds' if got != '!' else 'raises')
     if exp is not None and (valid == 'T') != (exp[0] == 'ok'):
@@ -757,6 +825,10 @@ def repro(c):
         return 'valid_nmap_range(%r), list(itertools.islice(iter_nmap_range(%r), %d))' % (a[1], a[1], FUEL)
     if k == 'nmulti':
         return 'list(iter_nmap_range(*%r))' % (a[1],)
+    if k == 'nislice':
+        return 'list(itertools.islice(iter_nmap_range(*%r), %d))' % (a[2], a[1])
+    if k == 'nplan':
+        return 'list(itertools.islice(iter_nmap_range(%r), %d))' % (a[1], FUEL)
     if k == 'vglob_nonstr':
         return 'valid_glob(%r)' % (_NONSTR[a[1]],)
     if k == 'nvalid_nonstr':
